@@ -4463,6 +4463,8 @@ class Frame(ContainerOperand):
 
         for idx, group in enumerate(groups):
             selection = locations == idx
+            if group_to_tuple:
+                group = tuple(group) # as Series does: a label of several depths is a tuple, not a (writeable) row of the groups array
 
             if axis == 0:
                 # axis 0 is a row iter, so need to slice index, keep columns
